@@ -143,8 +143,12 @@ def extract(configs, root=None, verbose=True):
             fdir = os.path.join(CACHE, "facts")
             if os.path.isdir(fdir):
                 olds = sorted((os.path.getmtime(os.path.join(fdir, n)), n) for n in os.listdir(fdir) if n != th)
-                for _, n in olds[:-2]:
-                    shutil.rmtree(os.path.join(fdir, n), ignore_errors=True)
+                now = time.time()
+                for mt, n in olds[:-6]:
+                    # another check (a parallel run on a scratch copy) may be about to read a recent set: only sets that
+                    # have not been touched for a while are dropped
+                    if now - mt > 900:
+                        shutil.rmtree(os.path.join(fdir, n), ignore_errors=True)
             if verbose:
                 print(f"[extract] tree {th}: extracting configs {todo} from {root}", flush=True)
             with ThreadPoolExecutor(max_workers=min(len(todo), 5)) as ex:
@@ -161,6 +165,10 @@ def extract(configs, root=None, verbose=True):
                         print(f"[extract] config {c}: {dt:.1f}s", flush=True)
         elif verbose:
             print(f"[extract] tree {th}: cached facts for {list(configs)}", flush=True)
+        try:
+            os.utime(base, None)
+        except OSError:
+            pass
         return {c: [os.path.join(base, c, "stylua_lib.json"), os.path.join(base, c, "stylua.json")] for c in configs}, th
 
 
